@@ -113,9 +113,11 @@ def load(path):
             pass
     f = Facts(path)
     try:
-        with open(cache + '.tmp%d' % os.getpid(), 'wb') as fh:
+        import threading
+        tmp = cache + '.tmp%d-%d' % (os.getpid(), threading.get_ident())
+        with open(tmp, 'wb') as fh:
             pickle.dump(f, fh, protocol=pickle.HIGHEST_PROTOCOL)
-        os.replace(cache + '.tmp%d' % os.getpid(), cache)
+        os.replace(tmp, cache)
     except Exception:
         pass
     return f
